@@ -81,6 +81,11 @@ def obligations(tier, seed):
     obs.append(Ob(id='C16.static.result-units', prop='C16', group='C16.static', prelude='', wrappers=[], inputs=[], kind='S', body=RU,
                   contract='static facts: x*C, C*x, x/C, C/x, q*C, C*q, q/C, C/q carry the product / quotient of the units (and the rep of the number); C*C, C/C are Constants of the '
                            'squared / cancelled unit; C*mag, C*maker, maker/C scale or combine the unit (C = SPEED_OF_LIGHT)', functions_under_contract=('au::Constant operators (result types, compile-time)',)))
+    # multiplying / dividing a constant by the magnitude ONE (or by a ratio that cancels) changes nothing at all - not the unit, not the value
+    RU1 = '#include <type_traits>\n#include "au/au.hh"\n#include "au/units/meters.hh"\n#include "au/units/seconds.hh"\nusing namespace au;\n#define VF_STATIC_FACT(c) static_assert(c, "VF_STATIC_FACT")\nconstexpr auto c = make_constant(meters / second * mag<299792458>());\nusing Uc = AssociatedUnitT<std::decay_t<decltype(c)>>;\nVF_STATIC_FACT((AreUnitsQuantityEquivalent<AssociatedUnitT<decltype(c * mag<1>())>, Uc>::value));\nVF_STATIC_FACT((AreUnitsQuantityEquivalent<AssociatedUnitT<decltype(mag<1>() * c)>, Uc>::value));\nVF_STATIC_FACT((AreUnitsQuantityEquivalent<AssociatedUnitT<decltype(c / (mag<3>() / mag<3>()))>, Uc>::value));\nVF_STATIC_FACT(((c * mag<1>()).in<int64_t>(meters / second) == 299792458));\nVF_STATIC_FACT((!(c * mag<1>()).can_store_value_in<int16_t>(meters / second)));\nVF_STATIC_FACT(((c * mag<2>() / mag<2>()).in<int64_t>(meters / second) == 299792458));\nVF_STATIC_FACT((AreUnitsQuantityEquivalent<AssociatedUnitT<decltype(c * ONE)>, Uc>::value));\nint main(){}\n'
+    obs.append(Ob(id='C16.static.times-one', prop='C16', group='C16.static', prelude='', wrappers=[], inputs=[], kind='S', body=RU1,
+                  contract='static facts: c * mag<1>(), mag<1>() * c, c / (mag<3>() / mag<3>()), c * ONE keep the unit of c = make_constant(m/s * mag<299792458>()) and its value in m/s; '
+                           'c * mag<2>() / mag<2>() has the same value', functions_under_contract=('au::Constant operators with Magnitude<> (compile-time)',)))
     sel = probes if tier == 'thorough' else probes[:-12][::2] + probes[-12:]
     for (nm, text) in sel:
         obs.append(Ob(id='C16.static.%s' % nm, prop='C16', group='C16.static', prelude='', wrappers=[], inputs=[], body=HDR + text + '\nint main() {}\n', kind='S',
